@@ -58,3 +58,7 @@ func HashString(s string) uint64 {
 	}
 	return h
 }
+
+// Seed53 returns a seed that survives a round trip through JSON numbers
+// (float64): replay plans are minimised by a generic JSON shrinker.
+func (r *Rng) Seed53() uint64 { return r.Uint64() >> 11 }
